@@ -311,6 +311,50 @@ func c13Once(c *mon.Ctx) {
 			c.R.Count("cli_invocations", 2)
 		}
 	}
+	// neighbours in the ORDER of names: the registry keeps its names sorted, so a look-up may search, merge or bisect.
+	// For every listed name its closest non-names (a character appended, the last character dropped) and the strings
+	// beyond both ends of the list must be rejected - alone, behind a listed name and in front of one
+	listed := map[string]bool{}
+	sortedNames := append([]string{}, g.Names()...)
+	sort.Strings(sortedNames)
+	for _, n := range sortedNames {
+		listed[n] = true
+	}
+	var neigh []string
+	for _, n := range sortedNames {
+		neigh = append(neigh, n+"_", n+"0", n[:len(n)-1])
+	}
+	if len(sortedNames) > 0 {
+		first, last := sortedNames[0], sortedNames[len(sortedNames)-1]
+		neigh = append(neigh, "zzzz", "~", "\u00ff", "x_no_such_lint", "z", last+"a", last+"z", "0", "a", "A", "_", "!", first[:1], first[:len(first)/2], "e", "e_", "w_", "n_", "w_zzzz", "n_zzzz", "e_zzzz", "e_0")
+	}
+	nNeigh := 0
+	for k, u := range neigh {
+		if listed[u] || u == "" {
+			continue
+		}
+		nNeigh++
+		valid := sortedNames[(k*7)%len(sortedNames)]
+		for vi, list := range [][]string{{u}, {valid, u}, {u, valid}} {
+			c.R.Count("evaluations", 2)
+			if _, err := g.Filter(lint.FilterOptions{IncludeNames: list}); err == nil {
+				c.V("unknown-name-accepted|lib-include", fmt.Sprintf("Filter accepted the include name list %q although %q is not a registered lint (a neighbour of listed names, list shape %d)", list, u, vi), "", nil, nil)
+			}
+			if _, err := g.Filter(lint.FilterOptions{ExcludeNames: list}); err == nil {
+				c.V("unknown-name-accepted|lib-exclude", fmt.Sprintf("Filter accepted the exclude name list %q although %q is not a registered lint (a neighbour of listed names, list shape %d)", list, u, vi), "", nil, nil)
+			}
+		}
+		if k >= len(sortedNames)*3 || k%c.Pick(97, 11) == 0 { // the strings beyond the ends always, the per-name neighbours sampled
+			if _, _, code := cliListNames("-includeNames", valid+","+u); code == 0 {
+				c.V("unknown-name-accepted|cli-include", fmt.Sprintf("zlint -includeNames %q exits 0", valid+","+u), "", nil, nil)
+			}
+			if _, _, code := cliListNames("-excludeNames", u); code == 0 {
+				c.V("unknown-name-accepted|cli-exclude", fmt.Sprintf("zlint -excludeNames %q exits 0", u), "", nil, nil)
+			}
+			c.R.Count("cli_invocations", 2)
+		}
+	}
+	c.R.Count("unknown_name_neighbours", int64(nNeigh))
 	if _, _, code := cliListNames("-profile", "no_such_profile"); code == 0 {
 		c.V("unknown-profile-accepted", "zlint -profile no_such_profile exits 0", "", nil, nil)
 	}
@@ -486,6 +530,7 @@ func init() {
 		RunCase:     func(c *mon.Ctx, i int) {},
 		StallSecs:   900,
 		Finish: func(c *mon.Ctx, r *mon.Report, ev *mon.Evidence) []string {
+			ev.Coverage["unknown_name_neighbours_rejected"] = r.Counters["unknown_name_neighbours"]
 			ev.Coverage["distinct_nontrivial"] = r.SetSize("names_checked") + r.SetSize("sources_checked") + r.SetSize("profiles_checked") + r.SetSize("unknown_strings")
 			ev.Coverage["exhaustive"] = true
 			ev.Coverage["sources_checked"] = r.SetKeys("sources_checked")
